@@ -96,6 +96,8 @@ def op_sx(o):
         return ["cv", o["name"], expr_sx(o["e"])]
     if k == "finalize":
         return ["finalize"]
+    if k == "setdefaults":
+        return ["setdefaults", params_sx(o.get("params"))]
     raise ValueError(o)
 
 
